@@ -159,14 +159,17 @@ def build_unit(unit, cfg, workdir, extra_roots=()):
     try:
         em.run(roots)
         contracts = {}
-        names = set(em.funcs) | set(em.protos)
+        names = set(em.funcs) | set(em.protos) | set(em.extra_protos)
         for cn in names:
             c = unit.contract_for(cn, cfg)
             if c is not None:
                 contracts[cn] = c
         cfg_defs = '\n'.join('#define CFG_%s %d' % (n, v) for n, v in zip(
             ('ASSERT', 'FILL', 'FENCE', 'LEAK', 'PTR_CHECK', 'DOUBLE_DEALLOC'), CONFIGS[cfg]))
-        text = em.output(contracts=contracts, loops=unit.loops, prelude=cfg_defs + PRELUDE + unit.prelude)
+        eo = ['#define ENFORCE_ONLY(f, clause) ENFORCE_ONLY_##f(clause)']
+        for cn in sorted(names):
+            eo.append('#ifdef ENFORCING_%s\n#define ENFORCE_ONLY_%s(c) c\n#else\n#define ENFORCE_ONLY_%s(c)\n#endif' % (cn, cn, cn))
+        text = em.output(contracts=contracts, loops=unit.loops, prelude=cfg_defs + PRELUDE + '\n'.join(eo) + '\n' + unit.prelude)
     except Abort as a:
         raise Undecided('extraction break in unit %s [%s]: %s' % (unit.name, cfg, a))
     # contracts that name functions which no longer exist => extraction break (renamed / removed)
@@ -235,6 +238,8 @@ def run_group(bu, g, extra_defs=(), label=None):
     defs = ['-D' + d for d in list(g.defs) + list(extra_defs)]
     if g.stop_allowed:
         defs.append('-DVERIF_ALLOW_STOP=1')
+    if g.enforce:
+        defs.append('-DENFORCING_' + g.enforce)
     a_gb, b_gb = os.path.join(wd, 'a.gb'), os.path.join(wd, 'b.gb')
     t0 = time.time()
     res = dict(group=g.name, cfg=bu.cfg, label=label, props=[], cmds=[], wd=wd)
